@@ -439,7 +439,7 @@ func (w *Reconciler) syncCreateTasks(
 
 	// Cannot create any tasks.
 	if !canCreateTask(rj) {
-		return rj, tasks, nil
+		return w.adoptUnrecordedTasks(ctx, rj, tasks)
 	}
 
 	// Compute task refs first to get true completion status.
@@ -451,7 +451,7 @@ func (w *Reconciler) syncCreateTasks(
 
 	// If already complete, don't need to create any more tasks.
 	if completion.Complete {
-		return rj, tasks, nil
+		return w.adoptUnrecordedTasks(ctx, rj, tasks)
 	}
 
 	// Compute indexes that need to be created.
@@ -491,6 +491,96 @@ func (w *Reconciler) syncCreateTasks(
 	}
 
 	return updatedRj, tasks, nil
+}
+
+// adoptUnrecordedTasks looks for tasks that were created for the Job but are not
+// recorded in its status, because the status update that follows their creation had
+// failed. Such a task is normally adopted when its creation is attempted again,
+// but this is used when no more tasks will be created for the Job: without it the
+// task would never be recorded in the Job's status, and thus never be deleted
+// when the Job is killed, nor be waited for before the Job is finished.
+func (w *Reconciler) adoptUnrecordedTasks(
+	ctx context.Context,
+	rj *execution.Job,
+	tasks []jobtasks.Task,
+) (*execution.Job, []jobtasks.Task, error) {
+	// The tasks that would be created next are exactly those that may exist without
+	// being recorded.
+	indexes := parallel.GenerateIndexes(rj.Spec.Template.Parallelism)
+	indexRequests, err := parallel.ComputeMissingIndexesForCreation(rj, indexes)
+	if err != nil {
+		return rj, tasks, errors.Wrapf(err, "cannot compute missing indexes")
+	}
+
+	adopted := false
+	for _, request := range indexRequests {
+		name, err := jobutil.GenerateTaskName(rj.Name, jobtasks.TaskIndex{
+			Retry:    request.RetryIndex,
+			Parallel: request.ParallelIndex,
+		})
+		if err != nil {
+			return rj, tasks, errors.Wrapf(err, "cannot generate task name")
+		}
+
+		task, err := w.getUnrecordedTask(ctx, rj, name)
+		if err != nil {
+			return rj, tasks, errors.Wrapf(err, "cannot look up task %v", name)
+		}
+		if task == nil {
+			continue
+		}
+
+		tasks = append(tasks, task)
+		adopted = true
+		klog.InfoS("jobcontroller: adopted task",
+			"worker", w.Name(),
+			"namespace", rj.GetNamespace(),
+			"name", rj.GetName(),
+			"task", name,
+		)
+	}
+
+	if !adopted {
+		return rj, tasks, nil
+	}
+
+	// Sync Job's status with the new list of tasks before moving on.
+	updatedRj, err := w.updateTaskRefStatus(rj, tasks)
+	if err != nil {
+		return rj, tasks, errors.Wrapf(err, "cannot update status")
+	}
+
+	return updatedRj, tasks, nil
+}
+
+// getUnrecordedTask returns the task with the given name if it exists and is
+// controlled by the Job. The cache may lag behind, so before the Job is reported
+// as finished for the first time, a task that is missing from the cache is also
+// looked up from the apiserver.
+func (w *Reconciler) getUnrecordedTask(ctx context.Context, rj *execution.Job, name string) (jobtasks.Task, error) {
+	taskMgr, err := w.tasks.ForJob(rj)
+	if err != nil {
+		return nil, errors.Wrapf(err, "cannot get task manager")
+	}
+
+	task, err := taskMgr.Lister().Get(name)
+	if kerrors.IsNotFound(err) && rj.Status.Condition.Finished == nil {
+		task, err = taskMgr.Client().Get(ctx, name)
+	}
+	if kerrors.IsNotFound(err) {
+		return nil, nil
+	}
+	if err != nil {
+		return nil, err
+	}
+
+	// Check the task's controllerRef.
+	for _, ref := range task.GetOwnerReferences() {
+		if ref.Controller != nil && *ref.Controller && ref.Kind == execution.KindJob && ref.UID == rj.UID {
+			return task, nil
+		}
+	}
+	return nil, nil
 }
 
 // syncCreateTask will perform the logic to create a new task for a given retry index.
